@@ -20,6 +20,10 @@ type pkt struct {
 	contents []byte
 	ignore   bool
 	aad      []byte // spurious AAD (fault wrong_aad_send); normally nil
+	// reserved header bits a (reference) sender sets: receivers must ignore them
+	reserved byte
+	// a real sender first tries to send more than a packet can hold
+	oversizeFirst bool
 }
 
 // sentRec is one packet as it appears in a sender's raw stream.
@@ -345,13 +349,24 @@ func (e *endpoint) send(p pkt) (ret []byte, start int, err error) {
 	start = e.io.wr.rawLen()
 	if e.isReal {
 		var n int
+		if p.oversizeFirst {
+			// an attempt to send more than a packet can hold is refused and
+			// must leave the send ciphers untouched
+			big := make([]byte, 1<<24)
+			if _, _, oerr := e.real.V2EncPacket(big, nil, false); oerr == nil {
+				return nil, start, fmt.Errorf("V2EncPacket accepted %d bytes of contents", len(big))
+			}
+			if e.io.wr.rawLen() != start {
+				return nil, start, fmt.Errorf("a refused oversize packet wrote %d bytes", e.io.wr.rawLen()-start)
+			}
+		}
 		ret, n, err = e.real.V2EncPacket(p.contents, p.aad, p.ignore)
 		if err == nil && n != len(ret) {
 			err = fmt.Errorf("V2EncPacket reported %d bytes sent for a %d byte packet", n, len(ret))
 		}
 		return ret, start, err
 	}
-	ret = e.ref.S.Send.EncPacket(p.contents, p.aad, p.ignore)
+	ret = e.ref.S.Send.EncPacketReserved(p.contents, p.aad, p.ignore, p.reserved)
 	e.io.wr.Write(ret)
 	return ret, start, nil
 }
